@@ -97,7 +97,7 @@ func launchScenario(r *rand.Rand) []dbx.Op {
 	case 0:
 		counts = counts[:len(counts)-1] // shorter
 	case 1:
-		counts = append(counts, 1) // longer
+		counts = append(counts, uint64(r.Intn(2))) // longer (the surplus count may be 0: the sums still add up, the lists do not match)
 	case 2:
 		counts[0]++ // over-subscribed
 	case 3:
@@ -496,7 +496,7 @@ func main() {
 			case 3:
 				counts = counts[:1] // count list shorter than region list
 			case 4:
-				counts = append(counts, 1) // longer
+				counts = append(counts, uint64(r.Intn(2))) // longer, the surplus possibly 0
 			case 5:
 				regs = []string{"reg0", "reg0"} // duplicate region
 				counts = []uint64{1, 2}
